@@ -35,7 +35,7 @@ ASSUMPTIONS = [
     "'empty' feature excluded; CPU only",
 ]
 PROBES = ["feature_schedule", "hedger_schedule", "recurrent_log", "recurrent_after_fault", "H2", "listed_hedge",
-          "other_use_between", "prev_hedge_not_last", "loss_compared", "ww_model", "bound_feature_reused", "steps_out_of_order"]
+          "other_use_between", "prev_hedge_not_last", "loss_compared", "ww_model", "bound_feature_reused", "steps_out_of_order", "recurrent_under_grad"]
 
 
 class SimFault(Exception):
@@ -107,7 +107,8 @@ def generate(rng):
                     n1 = rng.choice([x for x in [1, 2, 3, 4, 6] if x != n0])
                     ops.append({"fault": fk, "hedger": "h1", "derivative": "d0", "hedge": hedge, "n_paths": n1,
                                 "torch_seed": rng.seed31(), "restore_n": n0, "restore_seed": rng.seed31()})
-            ops.append({"op": "recurrent", "hedger": "h1", "derivative": "d0", "hedge": hedge})
+            ops.append({"op": "recurrent", "hedger": "h1", "derivative": "d0", "hedge": hedge,
+                        "grad": rng.chance(0.4), "mode": rng.choice(["train", "eval"])})
     return {"profile": "c03", "env": {"default_dtype": "float32"}, "world": world, "ops": ops}
 
 
@@ -395,13 +396,39 @@ def _execute(program, stats, hist):
             hedge = world.hedge_list(op.get("hedge"))
             rec = h.model
             rec.reset()
+            with_grad = bool(op.get("grad")) and any(q.requires_grad for q in h.parameters())
+            (h.eval if op.get("mode") == "eval" else h.train)()
+            rec.keep_graph = with_grad
             try:
-                with torch.no_grad():
+                with (torch.enable_grad() if with_grad else torch.no_grad()):
                     out = h.compute_hedge(d, hedge=hedge)
+                    if with_grad:
+                        # "the prev_hedge input is exactly the model's output at step i-1": the very tensor, graph included
+                        stats.probe("recurrent_under_grad")
+                        live = list(rec.log)
+                        off_ = 0
+                        for f_ in hspec["inputs"]:
+                            if f_ == "prev_hedge":
+                                break
+                            off_ += nin_of([f_], Hn)
+                        for i_ in range(1, len(live)):
+                            yp, xi = live[i_ - 1]["y_live"], live[i_]["x_live"]
+                            if yp is None or xi is None or not yp.requires_grad:
+                                continue
+                            stats.checks += 1
+                            gsum = torch.autograd.grad(xi[..., off_: off_ + Hn].sum(), yp, retain_graph=True, allow_unused=True)[0]
+                            if gsum is None or not bool((gsum == 1).all()):
+                                raise Violation(ID, "prev_hedge_wrong", "prev_hedge@graph", {
+                                    "step": i_, "mode": op.get("mode"), "note": "the prev_hedge columns are not (a view of) the previous output"}, seq)
+                    out = out.detach()
+            except Violation:
+                raise
             except Exception as e:
                 if after_fault:
                     raise Violation(ID, "stale_state_leak", "compute_hedge[stepwise]", {"error": repr(e), "note": "raised right after a volatile-state fault"}, seq)
                 raise Violation(ID, "op_raised", "compute_hedge[stepwise]:%s" % type(e).__name__, {"error": repr(e), "features": hspec["inputs"], "H": Hn}, seq)
+            rec.keep_graph = False
+            torch.set_grad_enabled(True)
             log = list(rec.log)
             stats.sim_steps += N * (T - 1)
             stats.probe("recurrent_log")
